@@ -21,6 +21,7 @@
 (* and the shape laws (Base64MC.tla).  These laws guard the oracle.         *)
 (***************************************************************************)
 EXTENDS Naturals, Sequences, FiniteSets
+LOCAL INSTANCE SequencesExt          \* FoldLeft (evaluated iteratively by TLC: no deep recursion on long texts)
 
 Byte == 0..255
 Pad  == 61                                  \* '='
@@ -93,9 +94,14 @@ EncodeBits(s) ==
 ----------------------------------------------------------------------------
 (* DecodePrefix.                                                            *)
 
+(* length of the longest leading run of alphabet characters: a left fold with accumulator <<length so far, still  *)
+(* inside the run>> (texts of many thousand characters are checked, a recursive definition would exhaust TLC's     *)
+(* stack); AlphaRunRec is the same thing written recursively, DecodeLaws has TLC check that they agree.             *)
+AlphaRun(t) == FoldLeft(LAMBDA acc, c : IF acc[2] /\ IsAlpha(c) THEN <<acc[1] + 1, TRUE>> ELSE <<acc[1], FALSE>>,
+                        <<0, TRUE>>, t)[1]
 RECURSIVE RunFrom(_, _)
 RunFrom(t, i) == IF i > Len(t) \/ ~IsAlpha(t[i]) THEN i - 1 ELSE RunFrom(t, i + 1)
-AlphaRun(t) == RunFrom(t, 1)                    \* length of the longest leading run of alphabet characters
+AlphaRunRec(t) == RunFrom(t, 1)
 
 DecLen(n) == (6 * n) \div 8                     \* whole bytes carried by n alphabet characters
 
@@ -120,7 +126,7 @@ DecodePrefixBits(t) ==
 (* Laws (theorems about the definitions above; TLC checks them on every     *)
 (* string of Base64MC's finite universe).                                   *)
 
-IsPrefix(a, b) == Len(a) <= Len(b) /\ \A i \in 1..Len(a) : a[i] = b[i]
+LeadsOff(a, b) == Len(a) <= Len(b) /\ \A i \in 1..Len(a) : a[i] = b[i]
 
 EncodeLaws(s) ==
     LET e == Encode(s) IN
@@ -135,10 +141,11 @@ DecodeLaws(t) ==
     LET d == DecodePrefix(t)
         n == AlphaRun(t) IN
     /\ d = DecodePrefixBits(t)                                 \* the two definitions agree
+    /\ n = AlphaRunRec(t)
     /\ n <= Len(t) /\ (n < Len(t) => ~IsAlpha(t[n + 1])) /\ \A i \in 1..n : IsAlpha(t[i])
     /\ Len(d) = (6 * n) \div 8
     /\ d = DecodePrefix(SubSeq(t, 1, n))                       \* nothing after the run matters
-    /\ \A m \in 0..n : IsPrefix(DecodePrefix(SubSeq(t, 1, m)), d)   \* decoding is monotone in the run
+    /\ \A m \in 0..n : LeadsOff(DecodePrefix(SubSeq(t, 1, m)), d)   \* decoding is monotone in the run
     /\ (n % 4 = 0 => Encode(d) = SubSeq(t, 1, n))              \* complete groups re-encode to themselves
 
 (* RFC 4648 section 10 *)
